@@ -50,6 +50,20 @@ Theorem C10_words : forall a, arg_words a = words_of a.
 Proof. exact arg_words_spec. Qed.
 Print Assumptions C10_words.
 
+(* the directory in which included names are looked up, and the name under which the file itself is remembered:
+   for dir/base (base without '/', dir not ending in '/') they are dir and dir/base itself; for a bare name
+   they are "." and ./name  (dirname(3) and xbasename as modelled) *)
+Theorem C10_directory_of_file : forall d b x y d' b',
+  d = d' ++ [x] -> x <> 47 -> b = b' ++ [y] -> ~ In 47 b ->
+  dirname (d ++ [47] ++ b) = d /\ basename (d ++ [47] ++ b) = b /\ self_of (d ++ [47] ++ b) = d ++ [47] ++ b.
+Proof. exact dirname_basename_split. Qed.
+Print Assumptions C10_directory_of_file.
+
+Theorem C10_directory_of_bare_name : forall b b' y, b = b' ++ [y] -> ~ In 47 b ->
+  dirname b = [46] /\ basename b = b /\ self_of b = [46;47] ++ b.
+Proof. exact dirname_basename_bare. Qed.
+Print Assumptions C10_directory_of_bare_name.
+
 (* ---------- (b) the include recursion always ends ---------- *)
 (* fuel sufficiency: every nested read enters a readable path that was not in the cache, so fuel >= the number of
    readable paths not yet cached is enough; read_wcoll starts with length fs + 1 *)
